@@ -288,6 +288,16 @@ func (svc *service) stop() {
 }
 
 func (svc *service) publish(msg *message.PublishMessage, onComplete OnCompleteFunc) error {
+	// Every transmission gets a packet ID of its own. The ID a forwarded
+	// message carries was chosen by its publisher for another connection, and
+	// an application may publish a message object again while its previous
+	// transmission is still unacknowledged: either way two messages with one
+	// ID would be in flight here, and the second would be taken for a
+	// retransmission of the first.
+	if msg.QoS() != message.QosAtMostOnce {
+		msg.SetPacketID(message.NewPacketID())
+	}
+
 	// The message is put into its ack queue before the sender can see it (see
 	// writeRequest): the acknowledgement may arrive before this call returns.
 	var register func() error
